@@ -15,7 +15,7 @@ from harness import project as pj
 from harness.common import Check, chunks, pmap, tmap, NPROC
 
 TIERS = {"quick": dict(max_items=2, nrandom=1500, lookalike=20, Lcap=7, Lpairs=6),
-         "thorough": dict(max_items=3, nrandom=6000, lookalike=60, Lcap=9, Lpairs=8)}
+         "thorough": dict(max_items=3, nrandom=15000, lookalike=60, Lcap=9, Lpairs=8)}
 JCFG = "CONSTANTS MaxItems = 1\nNRandom = 1\nINIT JInit\nNEXT JNext\nINVARIANT Judged\nINVARIANT Count\nCHECK_DEADLOCK FALSE\n"
 
 # deterministic corpus, exercised in every run: characters outside the palette that the BNF
@@ -38,9 +38,35 @@ def terminals(jg):
     return [s["c"] for alts in jg.values() for alt in alts for s in alt if not s["nt"]]
 
 
-def pick_L(jg, cap):
-    ts = sorted((len(t) for t in terminals(jg)), reverse=True)
-    return max(4, min(cap, sum(ts[:2]) + 2))
+def pick_L(jg, cap, budget=600):
+    """length bound for the language comparison: the largest L <= cap for which the number of
+    terminal-token sequences of total length <= L stays below `budget` (Grammars!AltLang builds
+    products of two such sets, TLC refuses sets beyond 10^6 elements).  Terminals are split at
+    '<' because the re-parsed grammar spells '<' through a nonterminal of its own."""
+    toks = set()
+    for t in terminals(jg):
+        part = []
+        for ch in t:
+            if ch == 60:
+                toks.add((60,))
+                if part:
+                    toks.add(tuple(part))
+                part = []
+            else:
+                part.append(ch)
+        if part:
+            toks.add(tuple(part))
+    lens = [len(t) for t in toks] or [1]
+    f = [1]
+    total = 1
+    L = 0
+    for n in range(1, cap + 1):
+        f.append(sum(f[n - k] for k in lens if k <= n))
+        total += f[n]
+        if total > budget:
+            break
+        L = n
+    return max(2, L)
 
 
 def tuples_ml(out, tag):
@@ -113,7 +139,7 @@ def generate(chk, P, wd):
     for g in look:
         cases.append({"family": "nonterminal-lookalike", "g": g, "L": 4})
     for g in gen["pairs"]:
-        cases.append({"family": "pairs-recursive", "g": g, "L": P["Lpairs"]})
+        cases.append({"family": "pairs-recursive", "g": g, "L": pick_L(g, P["Lpairs"])})
     for x in gen["random"]:
         cases.append({"family": "random" if x["reach"] else "random-unreachable", "g": x["g"], "L": pick_L(x["g"], P["Lcap"])})
     for k, c in enumerate(cases):
